@@ -195,6 +195,10 @@ impl TransformerContext {
         clips: &mut Vec<OrderIndex>,
     ) -> Result<Option<BoundingBox>> {
         let target_el = el.get_target_element(self)?;
+        if el.name == "use" || el.name == "reuse" {
+            // an instance still waiting for its own position is nowhere yet
+            el.bbox_raw()?;
+        }
         let mut el_bbox = target_el.bbox()?;
 
         // TODO: move following to element::bbox() ?
